@@ -872,6 +872,39 @@ FLOAT_FIXED_WITNESSES = [("idiv", "float64", "uint8", 4, 0), ("add", "float64", 
                          ("tdiv", "float64", "float64", -1.0, 2.0), ("mul", "float64", "float64", 4611686018427387904, 4)]
 
 
+def _float_special_grid():
+    """Fixed grid, every run: the libm-backed folded float operators (`^` -> pow, `%` `%%%` -> fmod, `//` `///` -> floor/trunc
+    of the quotient, `/`) on IEEE special values x special right operands.  The fold runs in the compiler's own Lua VM
+    (luai_numpow, luai_nummod, ... of src/lua, rebuilt from the repository under test on every run), the run time in libm:
+    results are compared as printed by %a, i.e. bit for bit up to the NaN payload/sign (sign of zero and infinity included)."""
+    inf, nan = float("inf"), float("nan")
+    bases = [inf, -inf, 0.0, -0.0, nan, 1.0, -1.0, 2.25, -8.0, 0.5, -0.5, 1e300, 5e-324]
+    exps = [0.5, -0.5, 2.0, -2.0, -1.0, 0.0, -0.0, inf, -inf, nan, 1 / 3.0, 3.0, 1.0, 1.5]
+    divs = [inf, -inf, 0.0, -0.0, nan, 1.0, -1.0, 3.0, -0.5]
+    out = []
+    for a in bases:
+        for b in exps:
+            out.append(("pow", "float64", "float64", a, b))
+    for op in ("mod", "tmod", "idiv", "tdiv", "div"):
+        for a in bases[:11]:
+            for b in divs:
+                out.append((op, "float64", "float64", a, b))
+    # float32 and integer operands of `^` (the fold still runs Lua's double `^`)
+    for a in (inf, -inf, 0.0, -0.0, nan, -8.0, 2.25):
+        for b in (0.5, 2.0, -1.0, inf, 3.0):
+            out.append(("pow", "float32", "float32", a, b))
+            out.append(("pow", "float32", "float64", a, b))
+    for (t, a) in (("int32", -7), ("int32", 0), ("int8", -128), ("uint8", 4), ("int64", -9223372036854775808)):
+        for b in (0.5, -0.5, -1.0, 0.0, inf, -inf, nan, 1 / 3.0):
+            out.append(("pow", t, "float64", a, b))
+    for a in (inf, -inf, 0.0, -0.0, nan, -1.0):
+        out.append(("unm", "float64", None, a, None))
+    return out
+
+
+FLOAT_SPECIAL_GRID = _float_special_grid()
+
+
 def float_candidates(rng, n):
     import struct
     f32 = lambda x: struct.unpack("<f", struct.pack("<f", x))[0]
@@ -883,7 +916,8 @@ def float_candidates(rng, n):
             "uint8": [0, 1, 200, 255], "uint64": [0, 3, 18446744073709551615]}
     # designated: an integer-valued float constant divided by an integer zero (the fold runs the
     # Lua integer operator and the compiler dies with a traceback)
-    out = list(FLOAT_FIXED_WITNESSES) + list(FLOAT_WITNESSES)
+    out = list(FLOAT_FIXED_WITNESSES) + list(FLOAT_WITNESSES) + list(FLOAT_SPECIAL_GRID)
+    n += len(FLOAT_SPECIAL_GRID)
     types = ["float64", "float32"] + list(ints)
     while len(out) < n:
         op = rng.choice(FLOAT_OPS)
